@@ -58,14 +58,18 @@ def kwargs_from_call(
     kwdefaults: Dict[str, Any],
     args: Tuple[Any, ...],
     kwargs: Dict[str, Any],
+    positional_only: Iterable[str] = (),
 ) -> MutableMapping[str, Any]:
     """
     Inspect the input values received at the wrapper for the actual function call.
 
-    :param param_names: parameter (*i.e.* argument) names of the original (decorated) function
+    :param param_names:
+        names of the parameters (*i.e.* arguments) of the original (decorated) function
+        which can be bound by position
     :param kwdefaults: default argument values of the original function
     :param args: arguments supplied to the call
     :param kwargs: keyword arguments supplied to the call
+    :param positional_only: names of the positional-only parameters of the original function
     :return: resolved arguments as they would be passed to the function
     """
     # (Marko Ristin, 2020-12-01)
@@ -96,7 +100,10 @@ def kwargs_from_call(
             pass  # pragma: no cover
 
     for key, val in kwargs.items():
-        resolved_kwargs[key] = val
+        # A keyword argument named like a positional-only parameter lands in the variable keyword arguments
+        # of the function and must not shadow the positional-only parameter.
+        if key not in positional_only:
+            resolved_kwargs[key] = val
 
     return resolved_kwargs
 
@@ -680,7 +687,19 @@ def decorate_with_checker(func: CallableT) -> CallableT:
             "a reserved placeholder for keyword arguments in the condition."
         )
 
-    param_names = list(sign.parameters.keys())
+    # Keyword-only and variable keyword parameters can not be bound by position.
+    param_names = [
+        param.name
+        for param in sign.parameters.values()
+        if param.kind
+        not in (inspect.Parameter.KEYWORD_ONLY, inspect.Parameter.VAR_KEYWORD)
+    ]
+
+    positional_only = frozenset(
+        param.name
+        for param in sign.parameters.values()
+        if param.kind == inspect.Parameter.POSITIONAL_ONLY
+    )
 
     # Determine the default argument values
     kwdefaults = resolve_kwdefaults(sign=sign)
@@ -732,6 +751,7 @@ def decorate_with_checker(func: CallableT) -> CallableT:
                     kwdefaults=kwdefaults,
                     args=args,
                     kwargs=kwargs,
+                    positional_only=positional_only,
                 )
 
                 type_error = _assert_resolved_kwargs_valid(
@@ -805,6 +825,7 @@ def decorate_with_checker(func: CallableT) -> CallableT:
                     kwdefaults=kwdefaults,
                     args=args,
                     kwargs=kwargs,
+                    positional_only=positional_only,
                 )
 
                 type_error = _assert_resolved_kwargs_valid(
